@@ -1571,8 +1571,9 @@ def c08_real(ctx):
     return s
 
 PLANS["C08"] = dict(
-    modules=["Wx.Job.C08", "Wx.Job.C08b", "Wx.Job.C06", "Wx.Job.C08t", "Wx.Job.C08m", "Wx.Job.SimInduct3", "Wx.Cli.Action"],
-    theorems=["Jm.c08_main_bound", "Jm.dead_stays_dead", "Ca.first_interrupt_quits_gracefully", "Ca.graceful_quit_sequence", "Ca.other_signals_pass", "Ca.interrupts_escalate", "Jm.c08_quit_bound", "Jm.c08_deadline", "Jm.quit_deadline", "Jm.idle_timer", "Jm.deadline_simInv", "Jm.nextEvent_some", "Jm.nextEvent_none", "Jm.c08_delete_after_stop", "Jm.c08_delete_idle", "Jm.c08_same_script_fixed", "Jm.c08_fails_today", "Jm.timer_fires", "Jm.expiry_kills", "Jm.graceful_stop_step", "Jm.held_back", "Jm.c04"],
+    modules=["Wx.Job.C08", "Wx.Job.C08b", "Wx.Job.C06", "Wx.Job.C08t", "Wx.Job.C08m", "Wx.Job.SimInduct3", "Wx.Cli.Action", "Wx.Cli.SignalPrioThm"],
+    translate=True,
+    theorems=["Wp.interrupt_and_terminate_are_urgent", "Wp.other_signals_are_high", "Wp.only_two_signals_are_singled_out", "Wp.signalPrio_translated", "Jm.c08_main_bound", "Jm.dead_stays_dead", "Ca.first_interrupt_quits_gracefully", "Ca.graceful_quit_sequence", "Ca.other_signals_pass", "Ca.interrupts_escalate", "Jm.c08_quit_bound", "Jm.c08_deadline", "Jm.quit_deadline", "Jm.idle_timer", "Jm.deadline_simInv", "Jm.nextEvent_some", "Jm.nextEvent_none", "Jm.c08_delete_after_stop", "Jm.c08_delete_idle", "Jm.c08_same_script_fixed", "Jm.c08_fails_today", "Jm.timer_fires", "Jm.expiry_kills", "Jm.graceful_stop_step", "Jm.held_back", "Jm.c04"],
     bins=[("lib", ["wxquit", "wxquitreal"]), ("cli", ["wxcli-main", "wxcliaction"])],
     streams=lambda ctx: c08_streams(ctx) + [c08_real(ctx), cli_e2e(ctx, "C08")] + c05_streams(ctx, "cli-quit", "C08", cliquit_cases, cliquit_oracle),
     sources=["crates/lib/src/action/worker.rs", "crates/lib/src/watchexec.rs", "crates/lib/src/late_join_set.rs", "crates/supervisor/src/job/task.rs"],
@@ -1934,8 +1935,28 @@ def cli_e2e(ctx, pid):
             for l in (log.read_text().splitlines() if log.exists() else []):
                 try: os.kill(int(l.split()[1]), 9)
                 except Exception: pass
+    def quit_in_window(signame):
+        """the signal arrives while a debounce window is open (a change is pending): INT / TERM are urgent, the shutdown does not wait for the window"""
+        d, log = setup(f"quit-{signame}-in-window")
+        p = launch(d, ["--stop-timeout=500ms", "--debounce=4s"], f'trap "exit 0" TERM; echo "START $$" >> {log}; while :; do sleep 0.1; done')
+        try:
+            if wait_line(log, "START", 6.0) is None: return None
+            time.sleep(0.3)
+            (d / "proj" / "f").write_text("x")          # opens a 4 s window
+            time.sleep(0.5)
+            t0 = time.time(); p.send_signal(getattr(sg, signame))
+            try: p.wait(timeout=10)
+            except Exception: return [f"{signame} sent to watchexec while a 4 s debounce window was open: it had not exited after 10 s"]
+            took = time.time() - t0
+            return [f"{signame} sent to watchexec 0.5 s into a 4 s debounce window: the shutdown took {took:.2f} s — it waited for the window instead of flushing it (an interrupt / terminate signal is an urgent event)"] if took > 2.2 else []
+        finally:
+            finish(p)
+            for l in (log.read_text().splitlines() if log.exists() else []):
+                try: os.kill(int(l.split()[1]), 9)
+                except Exception: pass
     jobs = ([("start-up run", lambda: startup(False)), ("--postpone", lambda: startup(True))] if pid == "C05" else
-            [(f"{sn} {'ignored' if ig else 'honoured'}", (lambda sn=sn, ig=ig: quit_on(sn, ig))) for sn in ("SIGINT", "SIGTERM") for ig in (False, True)])
+            [(f"{sn} {'ignored' if ig else 'honoured'}", (lambda sn=sn, ig=ig: quit_on(sn, ig))) for sn in ("SIGINT", "SIGTERM") for ig in (False, True)] +
+            [(f"{sn} inside a debounce window", (lambda sn=sn: quit_in_window(sn))) for sn in ("SIGINT", "SIGTERM")])
     with ThreadPoolExecutor(len(jobs)) as ex: results = list(ex.map(lambda j: j[1](), jobs))
     for i, ((name, _), r) in enumerate(zip(jobs, results)):
         s.evaluations += 1; s.bump(name if r is not None else name + " (inconclusive)"); s.nontrivial.add(name.encode())
